@@ -128,10 +128,18 @@ func join(toks []string, seed int64, rnd *rand.Rand) string {
 				}
 			}
 		}
+		if tt == "\n" {
+			// a line break between two tokens, in every spelling ECMA-262 12.3 / 12.4 counts as one: LF, CR, CR LF, LS, PS, a
+			// single-line comment, and a multi-line comment that contains a line terminator (of either kind)
+			b.WriteString(nlSpellings[rnd.Intn(len(nlSpellings))])
+			continue
+		}
 		b.WriteString(rename(tt, seed))
 	}
 	return b.String()
 }
+
+var nlSpellings = []string{"\n", "\n", "\r\n", "\r", "\u2028", "\u2029", " // c\n", "/*\n*/", "/* a\u2028b */", "/*\u2029*/", "\n\n", " \n\t"}
 
 func joinCanon(ps []string, seed int64) string {
 	var b strings.Builder
